@@ -146,9 +146,33 @@ pub async fn project<S: Store>(s: &S, it: &Intern, max_h: u64) -> Value {
             has.push(tag);
         }
     }
+    // get_range over every stored run, the run extended by one on either side, and open ends
+    let mut rng = vec![];
+    let mut qs: Vec<(u64, u64)> = vec![];
+    for r in stored.as_ref() {
+        let (a, b) = (*r.start(), *r.end());
+        qs.push((a, b));
+        qs.push((a, b + 1));
+        if a > 1 {
+            qs.push((a - 1, b));
+        }
+        if b > a {
+            qs.push((a + 1, b));
+        }
+    }
+    for (a, b) in qs {
+        match s.get_range(a..=b).await {
+            Ok(hs) => rng.push(json!([a, b, 1, hs.iter().map(|h| it.lookup(h)).collect::<Vec<_>>()])),
+            Err(_) => rng.push(json!([a, b, 0, []])),
+        }
+    }
+    let open_all: Value = match s.get_range(..).await {
+        Ok(hs) => json!([1, hs.iter().map(|h| it.lookup(h)).collect::<Vec<_>>()]),
+        Err(_) => json!([0, []]),
+    };
     json!({"stored": ranges_json(&stored), "sampled": ranges_json(&sampled), "pruned": ranges_json(&pruned),
            "head": head, "hh": hh, "byh": byh, "hasat": hasat, "byhash": byhash, "has": has,
-           "meta": meta, "metanone": metanone})
+           "meta": meta, "metanone": metanone, "rng": rng, "all": open_all})
 }
 
 #[derive(Clone, Debug)]
